@@ -418,6 +418,12 @@ fn rename_spec(spec: &BodySpec, map: &[(String, String)]) -> BodySpec {
         }
     }
     for v in s.rules.lock.values_mut() { *v = r(v); }
+    // a renamed local that the template declares as a parameter (a captured variable of a lifted closure): the body's name is an alias
+    let mut alias = String::new();
+    for (o, n) in map {
+        if spec.tmpl_params.iter().any(|p| p == o) { alias.push_str(&format!("        let {} = {};\n", n, o)); }
+    }
+    if !alias.is_empty() { s.prologue = format!("{}{}", alias, s.prologue); }
     s
 }
 
@@ -475,6 +481,8 @@ struct BodySpec {
     replace: Vec<(String, String, bool)>, // original (normalized), replacement, optional
     keep_unsafe: bool,
     tmpl_line: usize,
+    /// parameter names of the function as declared in the template (for lifted closures these are the captured variables)
+    tmpl_params: Vec<String>,
 }
 
 struct Rewriter<'a> {
@@ -1474,6 +1482,46 @@ fn main() {
             spec.lift = kv.get("async").cloned();
             spec.keep_unsafe = kv.get("keep_unsafe").is_some();
             spec.rules = unit_rules.clone();
+            {
+                // the template's own declaration of this function precedes the directive: `fn name(<params>)` (ghost parameters skipped)
+                let mut k = ln;
+                while k > 0 && !(lines[k].contains("fn ") && lines[k].contains('(') && !lines[k].trim_start().starts_with("//")) { k -= 1; }
+                let decl: String = lines[k..ln].join(" ");
+                // the parameter list is the first `(` after `fn name` that is not inside the generics `<..>` (`->` is not a bracket)
+                let open = decl.find("fn ").and_then(|f| {
+                    let b = decl.as_bytes(); let mut i = f + 3; let mut angle = 0i32;
+                    while i < b.len() {
+                        if b[i] == b'-' && i + 1 < b.len() && b[i + 1] == b'>' { i += 2; continue; }
+                        match b[i] { b'<' => angle += 1, b'>' => angle -= 1, b'(' if angle == 0 => return Some(i), _ => {} }
+                        i += 1;
+                    }
+                    None
+                });
+                if let Some(open) = open {
+                    let mut depth = 0i32; let mut cur = String::new(); let mut parts: Vec<String> = vec![];
+                    let cs: Vec<char> = decl[open..].chars().collect();
+                    let mut k = 0;
+                    while k < cs.len() {
+                        let ch = cs[k];
+                        if ch == '-' && k + 1 < cs.len() && cs[k + 1] == '>' { cur.push_str("->"); k += 2; continue; }
+                        match ch {
+                            '(' | '<' | '[' => { depth += 1; if depth > 1 { cur.push(ch); } }
+                            ')' | '>' | ']' => { depth -= 1; if depth == 0 { parts.push(cur.clone()); break; } cur.push(ch); }
+                            ',' if depth == 1 => { parts.push(cur.clone()); cur.clear(); }
+                            _ => cur.push(ch),
+                        }
+                        k += 1;
+                    }
+                    for p in parts {
+                        let p = p.trim();
+                        if p.starts_with("Tracked(") || p.starts_with("Ghost(") { continue; }
+                        if let Some(c) = p.find(':') {
+                            let name = p[..c].trim().trim_start_matches("mut ").trim();
+                            if !name.is_empty() && name.chars().all(|ch| ch.is_alphanumeric() || ch == '_') { spec.tmpl_params.push(name.to_string()); }
+                        }
+                    }
+                }
+            }
             ln += 1;
             let mut cur: Option<(String, String)> = None; // (kind+arg, accumulated text)
             let mut pending_replace: Option<(String, bool)> = None;
